@@ -188,20 +188,49 @@ MSG_LEN = {"m1": 10, "m2": 17, "m3": 27}
 
 
 def split_trace(trace, side, max_events=400000, boundary="msg"):
-    """Split at `msg` events so that each part starts a fresh message; returns [(trace, side)]."""
+    """Split into parts of about max_events events.  A part starts at a `msg` event, or - inside a message
+    with very many runs - at the `begin` of a run, in which case the message event and the most recent
+    reference run are repeated at its head so that the part is a self-contained trace.  Returns [(trace, side)]."""
     parts = []
     tf = sf = None
     n = 0
+    cur_msg = None          # (trace line, side line) of the current message
+    cur_ref = []            # lines of the most recent reference run (begin .. done)
+    in_ref = False
+    bmark = '"ev":"%s"' % boundary
+
+    def new_part():
+        nonlocal tf, sf, n
+        if tf:
+            tf.close(); sf.close()
+        i = len(parts)
+        pt, ps = "%s.part%d" % (trace, i), "%s.part%d" % (side, i)
+        parts.append((pt, ps))
+        tf, sf = open(pt, "w"), open(ps, "w")
+        n = 0
+
     with open(trace, errors="replace") as t, open(side, errors="replace") as s:
         for tl, sl in zip(t, s):
-            if tf is None or (n >= max_events and ('"ev":"%s"' % boundary) in tl):
-                if tf:
-                    tf.close(); sf.close()
-                i = len(parts)
-                pt, ps = "%s.part%d" % (trace, i), "%s.part%d" % (side, i)
-                parts.append((pt, ps))
-                tf, sf = open(pt, "w"), open(ps, "w")
-                n = 0
+            is_msg = bmark in tl
+            is_begin = '"ev":"begin"' in tl
+            if is_msg:
+                cur_msg, cur_ref, in_ref = (tl, sl), [], False
+            if tf is None or (n >= max_events and is_msg):
+                new_part()
+            elif n >= max_events and is_begin and not in_ref and cur_msg is not None and boundary == "msg":
+                new_part()
+                tf.write(cur_msg[0]); sf.write(cur_msg[1])
+                for a, b in cur_ref:
+                    tf.write(a); sf.write(b)
+                n = 1 + len(cur_ref)
+            if is_begin:
+                in_ref = '"ref":true' in tl
+                if in_ref:
+                    cur_ref = []
+            if in_ref:
+                cur_ref.append((tl, sl))
+                if '"ev":"done"' in tl:
+                    in_ref = False
             tf.write(tl); sf.write(sl)
             n += 1
     if tf:
@@ -270,7 +299,7 @@ def check_C05(chk):
     q = chk.tier == "quick"
     chk.rule = ("runs = (i) every behaviour of MC_Stream (all delivery sizes, 0-2 not-ready results with immediate or "
                 "deferred wake-up at any read) replayed on the model messages; (ii) native: all 2^(n-1) chunkings of "
-                "every corpus message with n<=16 (21 thorough) octets, uniform and random chunkings of longer ones, "
+                "every corpus message with n<=16 (18 thorough) octets, uniform and random chunkings of longer ones, "
                 "each boundary preceded by a not-ready pattern; corpus = hand-made short messages + concretised TLC "
                 "streams + their mutations (malformed). One run = one (message, schedule) execution of the async "
                 "parser, compared with the blocking parser on the same octets; every read call is validated by "
@@ -292,7 +321,7 @@ def check_C06(chk):
     chk.rule = ("runs = (i) every behaviour of MC_Stream with payload octets after the end tag, blocking with "
                 "Interrupted results at any read and async with not-ready results; (ii) native: well-formed corpus x "
                 "payloads {empty, 1 octet, tag-looking octets, 64 KiB, 4 MiB (thorough)} x {greedy source, one octet "
-                "per read, all chunkings for n<=16/21, uniform, random} x Interrupted patterns, parse and parse_parts. "
+                "per read, all chunkings for n<=16/18, uniform, random} x Interrupted patterns, parse and parse_parts. "
                 "Each read call must offer exactly the rest of the current element (no read-ahead), consumption ends "
                 "on the end tag, the payload comes back byte-identical")
     chk.assumptions = ["scripted greedy sources of the harness", "TLC", "independent tokenizer"]
